@@ -801,8 +801,10 @@ func tvBasis() []TVJ {
 		{K: "bool", B: true}, {K: "bool", B: false},
 		{K: "bytes", S: "a"}, {K: "bytes", S: ""}, {K: "bytes", NilBuf: true},
 		{K: "float", Bits: f32(1)}, {K: "float", Bits: f32(0)}, {K: "float", Bits: 0x80000000}, {K: "float", Bits: 0x7fc00000}, {K: "float", Bits: f32(1.5)},
+		{K: "float", Bits: 1}, {K: "float", Bits: 2}, {K: "float", Bits: f32(1) + 1}, {K: "float", Bits: 0x7f800000}, {K: "float", Bits: 0xffc00001},
 		{K: "double", Bits: f64(1)}, {K: "double", Bits: f64(0)}, {K: "double", Bits: 0x8000000000000000}, {K: "double", Bits: 0x7ff8000000000001},
 		{K: "double", Bits: 0x7ff8000000000002}, {K: "double", Bits: f64(math.Inf(1))}, {K: "double", Bits: f64(1.5)},
+		{K: "double", Bits: 1}, {K: "double", Bits: 2}, {K: "double", Bits: f64(1) + 1}, {K: "double", Bits: f64(math.Inf(-1))},
 		{K: "decimal", I: 0, Prec: 0}, {K: "decimal", I: 15, Prec: 1}, {K: "decimal", I: 15, Prec: 2}, {K: "decimal", I: 150, Prec: 2}, {K: "decimalnil"},
 		{K: "leaflist"}, {K: "leaflistnil"},
 		{K: "leaflist", L: []TVJ{{K: "string", S: "a"}}},
@@ -839,16 +841,77 @@ func randTV(r *vh.Rand, depth int) TVJ {
 			t.U = uint64(r.Intn(4))
 		}
 	case "double":
-		if r.Chance(1, 3) {
+		switch r.Pick(4, 1, 1) {
+		case 1:
 			t.Bits = r.U64()
+		case 2:
+			t.Bits = r.U64() & 0x800000000000000f // tiny sub-normals and zeros
 		}
 	case "float":
-		if r.Chance(1, 3) {
+		switch r.Pick(4, 1, 1) {
+		case 1:
 			t.Bits = r.U64() & 0xffffffff
+		case 2:
+			t.Bits = r.U64() & 0x8000000f
 		}
 	case "decimal":
 		if r.Chance(1, 2) {
 			t.I, t.Prec = int64(r.Intn(4)), uint32(r.Intn(3))
+		}
+	}
+	return t
+}
+
+// nearMiss returns a value in the same oneof arm differing from t in one
+// field by the smallest possible amount (one ulp, one unit, one byte).
+func nearMiss(r *vh.Rand, t TVJ) TVJ {
+	switch t.K {
+	case "string", "bytes", "json", "jsonietf", "ascii", "protobytes":
+		if len(t.S) > 0 && r.Chance(1, 2) {
+			t.S = t.S[:len(t.S)-1]
+		} else {
+			t.S += "a"
+		}
+		t.NilBuf = false
+	case "int":
+		t.I += int64(r.Intn(2))*2 - 1
+	case "uint":
+		t.U += uint64(r.Intn(2))*2 - 1
+	case "bool":
+		t.B = !t.B
+	case "float":
+		switch r.Intn(3) {
+		case 0:
+			t.Bits = (t.Bits + 1) & 0xffffffff
+		case 1:
+			t.Bits = (t.Bits - 1) & 0xffffffff
+		default:
+			t.Bits ^= 0x80000000
+		}
+	case "double":
+		switch r.Intn(3) {
+		case 0:
+			t.Bits++
+		case 1:
+			t.Bits--
+		default:
+			t.Bits ^= 0x8000000000000000
+		}
+	case "decimal":
+		switch r.Intn(4) {
+		case 0:
+			t.I++
+		case 1:
+			t.Prec++
+		case 2:
+			if t.Prec > 0 {
+				t.Prec--
+			} else {
+				t.I--
+			}
+		default: // numerically equal, different representation
+			t.I *= 10
+			t.Prec++
 		}
 	}
 	return t
@@ -859,7 +922,7 @@ func randTV(r *vh.Rand, depth int) TVJ {
 func mutateTV(r *vh.Rand, t TVJ) TVJ {
 	if t.K == "leaflist" && len(t.L) > 0 && r.Chance(3, 4) {
 		out := TVJ{K: "leaflist", L: append([]TVJ{}, t.L...)}
-		switch r.Pick(5, 1, 1) {
+		switch r.Pick(5, 1, 1, 1) {
 		case 0:
 			i := r.Intn(len(out.L))
 			out.L[i] = mutateTV(r, out.L[i])
@@ -867,12 +930,17 @@ func mutateTV(r *vh.Rand, t TVJ) TVJ {
 			out.L = out.L[:len(out.L)-1]
 		case 2:
 			out.L = append(out.L, randTV(r, 0))
+		case 3:
+			i, j := r.Intn(len(out.L)), r.Intn(len(out.L))
+			out.L[i], out.L[j] = out.L[j], out.L[i]
 		}
 		return out
 	}
-	switch r.Pick(3, 2) {
+	switch r.Pick(3, 5, 2) {
 	case 0:
 		return t
+	case 1:
+		return nearMiss(r, t)
 	}
 	return randTV(r, 1)
 }
@@ -1155,7 +1223,7 @@ func main() {
 			e.add(&Case{Family: "equal-pairs", Kind: "equal", A: &a, B: &b})
 		}
 	}
-	for i := 0; i < 600*scale; i++ {
+	for i := 0; i < 1500*scale; i++ {
 		a := randTV(r, 2)
 		b := mutateTV(r, a)
 		e.add(&Case{Family: "equal-random", Kind: "equal", A: &a, B: &b})
